@@ -47,6 +47,8 @@ class Sketch:
             return ('leaf', self.choice('leaf', LEAF), self.sym())
         if kind == 'V':          # a variable leaf
             return ('leaf', Choice.concrete(LEAF, 'var'), self.sym())
+        if kind == 'VC':         # the variable leaf with concrete atom sh[1]
+            return ('leaf', Choice.concrete(LEAF, 'var'), Choice.concrete(list(range(self.k)), sh[1]))
         if kind == 'not':
             return ('not', self.build(sh[1]))
         if kind == 'bin':
